@@ -21,6 +21,8 @@ getitem_int = Contract(
              "result.t == self.__t[" + NORM + "] and result.y == self.__y[" + NORM + "]",
              "result.event is None"],
     ensures_exc=["is_exc(exc, 'IndexError')", "index > self.counter or index < -(self.counter + 1)"],
+    result=("obj", "StateTuple", {"t": "Real", "y": "Real", "event": "None"}),
+    may_raise=True, exc_kinds=("IndexError",),
     serves=["C19", "C18"])
 getitem_int.label = "int-index"
 
